@@ -67,6 +67,7 @@ type obs struct {
 	panicked      bool
 	pv            any
 	stuck         bool
+	afterError    int // bytes handed out by Read calls made after the first error
 }
 
 func drive(r *mon.Run, id string, d draft, stream []byte, digest string, limit uint64, sc sched, rsHint int) obs {
@@ -103,6 +104,19 @@ func drive(r *mon.Run, id string, d draft, stream []byte, digest string, limit u
 			}
 			if e != nil {
 				o.err = e
+				// a caller that keeps reading after an error must not be handed anything that is not authenticated either
+				for extra := 0; extra < 6; extra++ {
+					k2, e2 := dec.Read(dst)
+					if k2 < 0 || k2 > len(dst) {
+						o.stuck = true
+						return
+					}
+					o.out = append(o.out, dst[:k2]...)
+					o.afterError += k2
+					if e2 == io.EOF {
+						return // the alteration was already reported by the first error; only bytes released afterwards matter
+					}
+				}
 				return
 			}
 			if steps > 8*len(stream)+1000 {
@@ -130,7 +144,7 @@ func judge(r *mon.Run, d draft, stream []byte, digest string, limit uint64, comm
 	key := fmt.Sprintf("mi15:%s:%s:%s:%s:%d", d.enc, mon.Short(stream), digest, sc.name, limit)
 	det := map[string]any{"draft": string(d.enc), "stream_hex": mon.Hex(stream), "digest": digest, "limit": limit, "schedule": sc.name, "mutation": mut,
 		"class": class, "committed_payload_hex": mon.Short(committed), "output_hex": mon.Short(o.out), "clean_eof": o.cleanEOF,
-		"error": fmt.Sprint(o.err), "newdecoder_error": fmt.Sprint(o.newErr), "consumed_by_newdecoder": o.consumedAtNew,
+		"error": fmt.Sprint(o.err), "bytes_released_after_the_first_error": o.afterError, "newdecoder_error": fmt.Sprint(o.newErr), "consumed_by_newdecoder": o.consumedAtNew,
 		"reference_auth_prefix": mon.Short(ref.Auth), "reference_complete": ref.Complete, "reference_refused": ref.Refused}
 	outcome := ""
 	viol := func(kind, what string) {
@@ -209,7 +223,7 @@ func withRS(stream []byte, rs uint64) []byte {
 func main() { mon.Main("C15", run) }
 
 func run(r *mon.Run) {
-	r.Rule("for every honest stream of the grid drafts {02,03} x rs 1..RSMAX x payload length 0..3rs+2: every single-bit flip, every truncation length, suffixes of length {1,31,32,33,rs,rs+32}, every swap / duplication / removal of record units, record-size field set to {0,rs-1,rs+1,2rs,limit,limit+1,2^63,2^64-1}, wrong digests (bit-flipped proof, other draft's label/alphabet, wrong length), limits {16384, rs, rs-1}; plus seeded arbitrary streams against the digest of their own first unit; read schedules rotate over 5 (source chunking x destination buffer); distinct = (draft, class, mutation kind, outcome)")
+	r.Rule("for every honest stream of the grid drafts {02,03} x rs 1..RSMAX x payload length 0..3rs+2: every single-bit flip, every truncation length, suffixes of length {1,31,32,33,rs,rs+32}, every swap / duplication / removal of record units (the caller keeps calling Read six more times after the first error), record-size field set to {0,rs-1,rs+1,2rs,limit,limit+1,2^63,2^64-1}, wrong digests (bit-flipped proof, other draft's label/alphabet, wrong length), limits {16384, rs, rs-1}; plus seeded arbitrary streams against the digest of their own first unit; read schedules rotate over 5 (source chunking x destination buffer); distinct = (draft, class, mutation kind, outcome)")
 	r.Assume("SHA-256 is collision free, so the payload a digest commits to is unique; for mutated honest streams it is the payload the harness encoded")
 	r.Assume("clean EOF is additionally required to coincide with the reference decoder accepting the stream as a complete encoding (that is what 'detected' means for extension)")
 	rsMax := 8
